@@ -33,28 +33,76 @@ Proof. intros lo hi l g m. destruct lo as [a|], hi as [b|]; split; reflexivity. 
 
 (* ---- combinators, as functions of the list of sub-results ----------------------------- *)
 
+(* The proofs below do not depend on how the source spells the loop: an early-return loop
+   (also what all(...) / any(...) are normalised to), a forallb / existsb expression, or a fold
+   over one Boolean accumulator; Boolean tests may be written in any equivalent way. *)
+
+Ltac solve_early l v IH :=
+  induction l as [|q r IH]; [reflexivity|];
+  cbn [map AndCallback.condition OrCallback.condition forallb existsb]; rewrite <- IH;
+  destruct (cond v q); reflexivity.
+
+Ltac solve_listfun l v IH :=
+  unfold AndCallback.condition, OrCallback.condition;
+  induction l as [|q r IH]; [reflexivity|];
+  cbn [map forallb existsb]; destruct (cond v q); cbn [andb orb negb implb]; try rewrite <- IH; try rewrite IH; reflexivity.
+
 Theorem gen_and : forall v l, AndCallback.condition (map (cond v) l) = cond v (PAnd l).
 Proof.
-  intros v l. rewrite and_spec. induction l as [|q r IH]; [reflexivity|].
-  cbn [map AndCallback.condition forallb]. rewrite IH. destruct (cond v q); reflexivity.
+  intros v l. rewrite and_spec.
+  first
+    [ solve [solve_early l v IH]
+    | solve [solve_listfun l v IH]
+    | solve [ unfold AndCallback.condition;
+              match goal with |- fold_left ?F _ ?i = _ =>
+                assert (H : forall a, fold_left F (map (cond v) l) a = a && forallb (cond v) l)
+                  by (induction l as [|q r IH]; intros a; cbn [map fold_left forallb];
+                      [destruct a; reflexivity | rewrite IH; destruct a, (cond v q); reflexivity]);
+                rewrite H; reflexivity end ] ].
 Qed.
 
 Theorem gen_or : forall v l, OrCallback.condition (map (cond v) l) = cond v (POr l).
 Proof.
-  intros v l. rewrite or_spec. induction l as [|q r IH]; [reflexivity|].
-  cbn [map OrCallback.condition existsb]. rewrite IH. destruct (cond v q); reflexivity.
+  intros v l. rewrite or_spec.
+  first
+    [ solve [solve_early l v IH]
+    | solve [solve_listfun l v IH]
+    | solve [ unfold OrCallback.condition;
+              match goal with |- fold_left ?F _ ?i = _ =>
+                assert (H : forall a, fold_left F (map (cond v) l) a = a || existsb (cond v) l)
+                  by (induction l as [|q r IH]; intros a; cbn [map fold_left existsb];
+                      [destruct a; reflexivity | rewrite IH; destruct a, (cond v q); reflexivity]);
+                rewrite H; reflexivity end ] ].
 Qed.
 
 Theorem gen_not : forall v q, NotCallback.condition (cond v q) = cond v (PNot q).
-Proof. intros v q. rewrite not_spec. reflexivity. Qed.
+Proof. intros v q. rewrite not_spec. unfold NotCallback.condition. destruct (cond v q); reflexivity. Qed.
 
+(* XorCallback: a count of the true sub-results (sum(...) generator or counting loop) tested for
+   oddness, or a Boolean xor-fold *)
 Theorem gen_xor : forall v l, XorCallback.condition (map (cond v) l) = cond v (PXor l).
 Proof.
   intros v l. rewrite xor_spec. unfold XorCallback.condition.
-  change (Z.eqb (?x mod 2) 1) with (x mod 2 =? 1). rewrite mod2_odd.
-  induction l as [|q r IH]; [reflexivity|].
-  cbn [map fold_right]. unfold parity in *. cbn [fold_right]. rewrite odd_bit, IH. reflexivity.
+  first
+    [ solve [ match goal with |- Z.eqb (fold_left ?F _ ?i mod 2) 1 = _ =>
+                assert (H : forall a, Z.odd (fold_left F (map (cond v) l) a) = xorb (Z.odd a) (parity (map (cond v) l)))
+                  by (induction l as [|q r IH]; intros a; cbn [map fold_left];
+                      [unfold parity; cbn [fold_right]; destruct (Z.odd a); reflexivity
+                      | rewrite IH; unfold parity; cbn [fold_right]; destruct (cond v q);
+                        rewrite ?Z.odd_add; change (Z.odd 1) with true; destruct (Z.odd a), (fold_right xorb false (map (cond v) r)); reflexivity]);
+                change (Z.eqb (?x mod 2) 1) with (x mod 2 =? 1); rewrite mod2_odd, H; destruct (parity (map (cond v) l)); reflexivity end ]
+    | solve [ match goal with |- fold_left ?F _ ?i = _ =>
+                assert (H : forall a, fold_left F (map (cond v) l) a = xorb a (parity (map (cond v) l)))
+                  by (induction l as [|q r IH]; intros a; cbn [map fold_left];
+                      [unfold parity; cbn [fold_right]; destruct a; reflexivity
+                      | rewrite IH; unfold parity; cbn [fold_right];
+                        destruct a, (cond v q), (fold_right xorb false (map (cond v) r)); reflexivity]);
+                rewrite H; destruct (parity (map (cond v) l)); reflexivity end ] ].
 Qed.
+
+(* ConditionCallback.__call__: the action runs iff the condition holds and an action is attached *)
+Theorem gen_call : forall c a, ConditionCallback.call c a = c && a.
+Proof. intros c a. destruct c, a; reflexivity. Qed.
 
 (* ---- _RepeatedMetricChange.condition: the index-based while loop is the structural streak -- *)
 
